@@ -763,3 +763,8 @@ pub fn edge_texts() -> Vec<String> {
     }
     t
 }
+
+/// texts with carriage returns (line anchors are LF-only unless CRLF mode is requested)
+pub fn cr_texts() -> Vec<String> {
+    ["\r", "a\r", "\ra", "a\rb", "a\r\nb", "\r\n", "ab\rcd", "a\n\rb", "\r\r", "a\r\n", "\r\na"].iter().map(|s| s.to_string()).collect()
+}
